@@ -19,6 +19,7 @@ import ast
 from .core import FuncTypes, dotted, walk_no_nested
 from .facts import MUTATORS
 
+DIFFDATA = '<diff-data>'
 FRESH_DEEP = {'copy.deepcopy', 'deepcopy', 'json.loads', 'json.dumps', 'str', 'repr', 'len', 'int', 'float', 'bool',
               'isinstance', 'type', 'id', 'hash', 'max', 'min', 'sum', 'any', 'all', 'range', 'enumerate_index', 'print',
               'nbformat.from_dict', 'from_dict'}
@@ -33,11 +34,12 @@ STRING_METHODS = {'join', 'format', 'splitlines', 'split', 'strip', 'lower', 'up
 
 
 class Summaries:
-    def __init__(self, repo, cg, module_filter=None, exempt=None, scalar_fields=()):
+    def __init__(self, repo, cg, module_filter=None, exempt=None, scalar_fields=(), input_fields=()):
         self.repo = repo
         self.cg = cg
         self.exempt = dict(exempt or {})        # (fid, param) -> reason : summary suppressed (named exemption)
         self.scalar_fields = set(scalar_fields)  # attribute names that hold immutable scalars by schema
+        self.input_fields = set(input_fields)    # attribute names whose content is input data wherever it is found
         self.mutates = {}       # (fid, param) -> witness dict
         self.returns = {}       # (fid, param) -> kind
         self.absorbs = {}       # (fid, param) -> True : param is stored into `self` (first param) by the callee
@@ -228,7 +230,12 @@ class FnAlias:
             b = self.ev(e.value, env)
             if e.attr in self.s.scalar_fields:
                 return set()            # immutable scalar by schema: aliasing it is harmless
-            return self.elem_of(b)
+            out = self.elem_of(b)
+            if e.attr in self.s.input_fields and any(k <= 1 for r, k in b):
+                # the carrier is an existing object (or a shallow copy of one): the content of these fields is
+                # data of the caller's diffs/documents, whatever route the carrier took to get here
+                out = out | {(DIFFDATA, 0)}
+            return out
         if isinstance(e, ast.Subscript):
             b = self.ev(e.value, env)
             self.ev(e.slice, env) if not isinstance(e.slice, ast.Slice) else None
